@@ -1,6 +1,7 @@
 import FluteModel.FdtAbs
 import FluteModel.Spec.FdtSpec
 import FluteModel.Lemmas.FdtAbs
+import FluteModel.Lemmas.FdtSched
 /-
   Property C10 - FDT instances list exactly the announced objects, survive XML, fresh id / expiry.
   All theorems quantify over every configuration and every operation history
@@ -394,5 +395,107 @@ theorem refused_fdt_never_published (cfg : Cfg) (hadm : ∀ i, cfg.fdtFits i = f
 theorem refused_fdt_objects_still_start (s : State) (t now : Nat) (h : s.files.any (fun f => f.toi = t) = true) :
     (tstart s t now).1.files = s.files.map (fStart t) := by
   rw [tstart_files, h]; rfl
+
+/-! ## link to the scheduler model (`FluteModel.Sched`, properties C11-C14): the operations `tstart` / `tdone` / `poll`
+      are not free inputs there - they are what the scheduler model does -/
+
+/-- `sched_refines_fdtabs`: for EVERY operation history of the scheduler model (add / publish / remove / trigger / read /
+    set_complete, any times, any pacing ticks) there is a history of the abstract FDT model - its transfer starts are the
+    scheduler's `StartTransfer`s, its transfer ends the scheduler's `StopTransfer`s, its polls the scheduler's pops of
+    the FDT queue, its publications the scheduler's (explicit, on transfer start, before expiry) - such that the abstract
+    state is the projection of the scheduler state (`FdtSched.Link`: files in the FDT with their transferring flag and
+    transfer count, next instance id, queue length, complete flag, TOI counter) and the instances the scheduler has
+    published are, in order, the abstract publications (same instance id, same listed TOIs).  Hence every theorem above
+    about `(run (init cfg) aops).2` speaks about the instances the scheduler model emits. -/
+theorem sched_refines_fdtabs (A : FdtSched.Ann) (S : Sched.Cfg) (hc : FdtSched.CfgOk A S) (hA : A.ok)
+    (tbl : List Nat) (ops : List Sched.Op)
+    (hb : (Sched.run (Sched.init S tbl) ops).nextToi + 1 < 2^A.cfg.toiBits) :
+    ∃ aops : List Op,
+      FdtSched.Link A S (Sched.run (Sched.init S tbl) ops) (run (init A.cfg) aops).1 (run (init A.cfg) aops).2 :=
+  FdtSched.refines A S hc hA tbl ops hb
+
+/-- non-vacuity of the hypotheses of the link: a No-Code session in FullFDT mode announcing 100-byte objects -/
+def exampleAnn : FdtSched.Ann :=
+  { cfg := { mode := .fullFdt, startId := 5, durationUs := 3600000000, oti := ⟨0, 0, 64, 1400, 0, none⟩, groups := none },
+    base := fun _ => ⟨"61", "74", 100, 100, 0, none, none, none, none, none, 1, false⟩,
+    otiOf := fun _ => ⟨0, 0, 64, 1400, 0, none⟩ }
+
+def exampleSchedCfg : Sched.Cfg :=
+  { mode := .full, fdtCarousel := .delay 1000000000, fdtDuration := 3600000000000, fdtStartId := 5, queues := [(0, 3)] }
+
+example : FdtSched.CfgOk exampleAnn exampleSchedCfg ∧ exampleAnn.ok := by
+  refine ⟨⟨.inl ⟨rfl, rfl⟩, rfl, ⟨rfl, ?_⟩, ?_, ?_⟩, ?_⟩
+  · show (5 : Nat) < 2^20
+    decide
+  · show firstToi 112 1 = 1
+    decide
+  · intro a now h
+    unfold admitted
+    rw [h]
+    rfl
+  · intro t
+    refine ⟨?_, ?_⟩
+    · show effectiveOti ⟨0, 0, 64, 1400, 0, none⟩ ⟨"61", "74", 100, 100, 0, none, none, none, none, none, 1, false⟩ = _
+      simp [effectiveOti, maxTransferLength, u64mul, rsRefused, exampleAnn]
+    · simp [attrsXmlOk, exampleAnn]
+
+/-- the k-th FDT instance the scheduler model publishes is the k-th publication of that abstract history: it carries the id
+    `(fdt_start_id + k) mod 2^20` (`id_sequence`) and lists exactly the TOIs of the abstract instance - which is
+    `instanceAt` of the abstract state at that point (`published_is_instanceAt`), lists exactly the announced objects
+    (`publication_lists_exactly`) with unaltered attributes (`published_attrs_unaltered`) -/
+theorem sched_instances_are_abstract (A : FdtSched.Ann) (S : Sched.Cfg) (hc : FdtSched.CfgOk A S) (hA : A.ok)
+    (tbl : List Nat) (ops : List Sched.Op)
+    (hb : (Sched.run (Sched.init S tbl) ops).nextToi + 1 < 2^A.cfg.toiBits)
+    (k : Nat) (f : Sched.FileDesc) (hk : (Sched.run (Sched.init S tbl) ops).fdts[k]? = some f) :
+    ∃ (aops : List Op) (p : Pub), (run (init A.cfg) aops).2[k]? = some p ∧
+      f.fdtId = p.id ∧ f.content = p.inst.files.map (fun x => x.toi) ∧
+      f.fdtId = (S.fdtStartId + k) % 2^20 ∧
+      ∃ pre op post, aops = pre ++ op :: post ∧ p.inst = instanceAt (run (init A.cfg) (pre ++ [op])).1 p.time := by
+  rcases FdtSched.refines A S hc hA tbl ops hb with ⟨aops, hl⟩
+  have hp := hl.pubs
+  have h1 : ((Sched.run (Sched.init S tbl) ops).fdts.map FdtSched.sig)[k]? = some (FdtSched.sig f) := by
+    rw [List.getElem?_map, hk]; rfl
+  rw [hp, List.getElem?_map] at h1
+  cases hpk : (run (init A.cfg) aops).2[k]? with
+  | none => rw [hpk] at h1; cases h1
+  | some p =>
+    rw [hpk] at h1
+    simp only [Option.map_some, Option.some.injEq, FdtSched.sig, FdtSched.psig, Prod.mk.injEq] at h1
+    have hid := id_sequence A.cfg (by rw [hc.startId.1]; exact hc.startId.2) aops k p hpk
+    refine ⟨aops, p, hpk, h1.1.symm, h1.2.symm, ?_, published_is_instanceAt A.cfg aops p (List.mem_of_getElem? hpk)⟩
+    rw [← h1.1, hid, hc.startId.1]
+
+/-- `getFile` finds a listed file by its TOI whenever the listed TOIs are pairwise different ... -/
+theorem find_toi_of_nodup (l : List AFile) (h : (l.map (fun f => f.toi)).Nodup) (f : AFile) (hf : f ∈ l) :
+    l.find? (fun g => decide (g.toi = f.toi)) = some f := by
+  induction l with
+  | nil => cases hf
+  | cons g r ih =>
+    simp only [List.map_cons, List.nodup_cons] at h
+    rcases List.mem_cons.mp hf with rfl | hf
+    · simp [List.find?_cons]
+    · have hne : g.toi ≠ f.toi := fun e => h.1 (e ▸ List.mem_map_of_mem hf)
+      simp only [List.find?_cons, hne, decide_false]
+      exact ih h.2 hf
+
+theorem getFile_of_nodup (I : AbsFdt) (h : (I.files.map (fun f => f.toi)).Nodup) (f : AFile) (hf : f ∈ I.files) :
+    getFile I f.toi = some f := find_toi_of_nodup I.files h f hf
+
+/-- ... which they are in every state the scheduler model reaches (TOIs in the FDT are pairwise different: `Link.nodup`,
+    from the TOI counter - the allocator-level statement is C15's `live_unique`): flute's receiver-side lookup
+    `FdtInstance::get_file` of a listed TOI returns that file's entry -/
+theorem getFile_listed (A : FdtSched.Ann) (S : Sched.Cfg) (s : Sched.State) (a : State) (ps : List Pub)
+    (hl : FdtSched.Link A S s a ps) (now : Nat) (f : AFile) (hf : f ∈ (instanceAt a now).files) :
+    getFile (instanceAt a now) f.toi = some f := by
+  apply getFile_of_nodup _ _ f hf
+  have htoi : (instanceAt a now).files.map (fun f => f.toi) = (listedFiles a).map (fun f => f.toi) := by
+    simp only [instanceAt, List.map_map]; rfl
+  rw [htoi]
+  have hall : (a.files.map (fun f => f.toi)).Nodup := by
+    rw [hl.files, FdtSched.projFiles_tois A s hl.known]; exact hl.nodup
+  unfold listedFiles
+  split
+  · exact hall
+  · exact List.Nodup.sublist (List.Sublist.map _ List.filter_sublist) hall
 
 end Flute.Props.C10
